@@ -55,12 +55,18 @@ def write_mc(wd, name, consts, trace=None, invariants=(), sim=False):
     return mod
 
 
-def extend(h):
-    """flush: two collections, each after an idle period longer than the expiry; probe: every sender, one message per probe topic"""
+def extend(h, busy=False):
+    """flush: two collections, each after an idle period longer than the expiry -- or (busy) a node that keeps sending once per
+    epoch for more than two expiry periods; probe: every sender, one message per probe topic"""
     ops = [dict(e=o["e"], s=o.get("s", 0), t=o.get("t", ""), n=o.get("n", 0), label="") for o in h]
-    for f in FLUSH:
-        ops += [dict(e="tick", s=0, t="", n=0, label="")] * (EPOCHS + 1)
-        ops.append(dict(e="send", s=0, t=f, n=0, label=""))
+    if busy:
+        for i in range(2 * EPOCHS + 2):
+            ops.append(dict(e="tick", s=0, t="", n=0, label=""))
+            ops.append(dict(e="send", s=0, t=FLUSH[i % 2], n=0, label=""))
+    else:
+        for f in FLUSH:
+            ops += [dict(e="tick", s=0, t="", n=0, label="")] * (EPOCHS + 1)
+            ops.append(dict(e="send", s=0, t=f, n=0, label=""))
     ops[-1] = dict(ops[-1], label="flushed")
     for s in SENDERS:
         for p in PROBE:
@@ -105,7 +111,7 @@ def run(pid):
             for h in ops[k * 40:(k + 1) * 40]:
                 long += h
             hs.append(long)
-    histories = [extend(h) for h in hs]
+    histories = [extend(h, busy=(i % 2 == 1)) for i, h in enumerate(hs)]
     log("boxseq: %d histories generated by TLC (real constants), %d operations" % (len(histories), sum(len(h) for h in histories)))
     drv = vlib.build_harness()
     topics = WORK + FLUSH + PROBE
